@@ -539,12 +539,12 @@ def main(tier, seed):
         items.append(dict(kinds=list(kinds), prepend=1))
     B = 40
     jobs = [dict(fam='sig', items=items[i:i + B]) for i in range(0, len(items), B)]
-    if tier == 'thorough':      # 12 fixed long signatures (24 parameters, kinds drawn once from a seeded generator)
+    if tier == 'thorough':      # 10 fixed long signatures (12 parameters, kinds drawn once from a seeded generator)
         import random
         rnd = random.Random(4)
-        for _ in range(12):
+        for _ in range(10):
             jobs.append(dict(fam='sig', big=True, items=[dict(
-                kinds=[rnd.choice([0, 1, 2, 3, 4, 5, 6, 7, 10, 11]) for _ in range(24)], prepend=0)]))
+                kinds=[rnd.choice([0, 1, 2, 3, 4, 5, 6, 7, 10, 11]) for _ in range(12)], prepend=0)]))
     witems = [dict(kinds=list(k), ikinds=list(ik)) for k in itertools.product([0, 1, 2, 7], repeat=2)
               for ik in itertools.product([0, 3, 6, 1], repeat=2)]
     jobs += [dict(fam='wrap', items=witems[i:i + B]) for i in range(0, len(witems), B)]
@@ -559,7 +559,7 @@ def main(tier, seed):
     chk.programs = nprog
     chk.require_notes('signatures', ['sig', 'lagged', 'unlagged', 'wrap', 'variants', 'meta', 'call'])
     chk.bounds = {'parameter_kinds': [str(k) for k in KINDS], 'signature_length': f'0..{nmax} exhaustive over the '
-                  'kind table' + ('; 12 fixed signatures of 24 parameters' if tier == 'thorough' else ''),
+                  'kind table' + ('; 10 fixed signatures of 12 parameters' if tier == 'thorough' else ''),
                   'prepend': '0..1', 'wrap_depth': 1, 'variants': '1..3',
                   'outside': 'wrap nesting deeper than 1, rate names in metadata, non-numeric defaults'}
     chk.assumptions = ['default, lag and variant values are exact reals',
